@@ -301,12 +301,94 @@ fn enumerate(rep: &mut Report, n: usize) {
     ));
 }
 
+/// The broker's topic -> filters cache (`DataLog::matches` / `next_native_offset`, anchored by
+/// the property): publishes and subscriptions interleaved over a dense topic / filter alphabet
+/// against the real router, with the reference matcher deciding who must receive what. A filter
+/// subscribed after a topic was first published to goes through the cache-update path.
+pub fn cache_campaign() -> crate::brokersim::campaign::SimCampaign {
+    use crate::brokersim::gen::GenCfg;
+    use crate::brokersim::observe::Flags;
+    use crate::brokersim::types::Op;
+    let lv = ["a", "b", ""];
+    let mut topics: Vec<String> = Vec::new();
+    let mut filters: Vec<String> = vec!["#".into()];
+    for x in lv {
+        if !x.is_empty() {
+            topics.push(x.to_string());
+        }
+        filters.push(format!("{x}/#"));
+        for y in lv {
+            topics.push(format!("{x}/{y}"));
+            filters.push(format!("{x}/{y}/#"));
+            for z in lv {
+                topics.push(format!("{x}/{y}/{z}"));
+            }
+        }
+    }
+    let fl = ["a", "b", "", "+"];
+    for x in fl {
+        if !x.is_empty() {
+            filters.push(x.to_string());
+        }
+        for y in fl {
+            filters.push(format!("{x}/{y}"));
+            for z in fl {
+                filters.push(format!("{x}/{y}/{z}"));
+            }
+        }
+    }
+    for extra in ["é/x", "é", "A/b"] {
+        topics.push(extra.to_string());
+    }
+    for extra in ["é/#", "é/+", "+/x", "A/#"] {
+        filters.push(extra.to_string());
+    }
+    crate::brokersim::campaign::SimCampaign {
+        name: "router_cache",
+        gen: GenCfg {
+            min_clients: 2,
+            max_clients: 3,
+            max_chunks: 40,
+            w_subscribe: 14,
+            w_unsubscribe: 3,
+            w_publish: 24,
+            w_burst: 0,
+            w_release: 2,
+            w_turn: 8,
+            w_drain: 6,
+            w_settle: 3,
+            qos_weights: [6, 2, 1],
+            p_manual_ack: 0,
+            p_manual_ready: 0,
+            p_props: 0,
+            p_v5: 20,
+            topics,
+            filters,
+            ..GenCfg::default()
+        },
+        flags: Flags { delivery: true, avoid: super::c01::avoid_all(), ..Flags::default() },
+        quick: 6000,
+        thorough: 150000,
+        nontrivial: |s, h| {
+            if s.forwards == 0 {
+                return None;
+            }
+            // a subscription made after a publish: the new filter has to be added to cached topics
+            let first_pub = h.ops.iter().position(|o| matches!(o, Op::Publish { .. }))?;
+            let late_sub = h.ops.iter().skip(first_pub).any(|o| matches!(o, Op::Subscribe { .. }));
+            if late_sub { Some("subscribe_after_publish".into()) } else { None }
+        },
+        probes: vec![],
+        shape: None,
+    }
+}
+
 pub fn plan(tier: Tier) -> Plan {
     let n = tier.pick(4, 5);
     Plan {
-        campaigns: vec![Box::new(crate::fuzzdec::FuzzReplay("fuzz_topic", "topic")), Box::new(Pairs)],
+        campaigns: vec![Box::new(crate::fuzzdec::FuzzReplay("fuzz_topic", "topic")), Box::new(Pairs), Box::new(cache_campaign())],
         enumerators: vec![Box::new(move |rep| enumerate(rep, n))],
-        rule: "Cases are (topic, filter) string pairs: every pair of strings up to a length bound over {a,b,/,+,#,$,é,😀} is enumerated exactly once (so enumerated cases are distinct by construction), plus random pairs built level-wise (literal, empty, '+', '#', malformed levels; half of the filters derived from the topic so matches are frequent). A pair is non-trivial when the filter contains a wildcard, or the topic starts with '$' or with a multi-byte character; random pairs are counted distinct by hash.".into(),
+        rule: "Cases are (topic, filter) string pairs: every pair of strings up to a length bound over {a,b,/,+,#,$,é,😀} is enumerated exactly once (so enumerated cases are distinct by construction), plus random pairs built level-wise (literal, empty, '+', '#', malformed levels; half of the filters derived from the topic so matches are frequent). A pair is non-trivial when the filter contains a wildcard, or the topic starts with '$' or with a multi-byte character; random pairs are counted distinct by hash. Campaign router_cache: histories of SUBSCRIBE / UNSUBSCRIBE / PUBLISH over 41 topics and ~120 filters built from the levels a, b, empty, '+', trailing '#' (plus multi-byte and upper-case ones) from 2-3 clients against the real router (E4): every forward must be owed by the reference matcher and everything it owes must arrive, which decides DataLog's topic->filters cache (filters added after a topic was cached); non-trivial there: a SUBSCRIBE after the first PUBLISH and >=1 forward.".into(),
         assumptions: vec![
             "The reference matcher (harness/src/topic.rs) is a faithful reading of MQTT 3.1.1 §4.7 and of the documented '$' rule".into(),
             "matches() is compared with the reference only for valid topic x valid filter; for all other pairs only totality and agreement of the three copies is required".into(),
